@@ -57,6 +57,7 @@ type world struct {
 	st     *store
 	w      *vtrace.Writer
 	s      atomic.Pointer[sched.Sched]
+	dport  int // remoting port of the departed node "D" (nothing listens there)
 }
 
 var W *world // the grain / actor callbacks reach the harness through this
@@ -85,9 +86,13 @@ func newWorld(names []string, w *vtrace.Writer) *world {
 		if n, ok := wd.byPort[port]; ok {
 			return n.name
 		}
+		if port == wd.dport {
+			return "D"
+		}
 		return "?"
 	})
-	ports := freePorts(2 * len(names))
+	ports := freePorts(2*len(names) + 1)
+	wd.dport = ports[2*len(names)]
 	var dns []*discovery.Node
 	for i, name := range names {
 		dns = append(dns, &discovery.Node{Name: name, Host: "127.0.0.1", DiscoveryPort: 0, PeersPort: ports[2*i+1], RemotingPort: ports[2*i]})
@@ -254,7 +259,9 @@ type behaviour struct {
 	Orgs  map[string]string `json:"orgs"`
 	Steps []step            `json:"steps"`
 	Tag   string            `json:"tag"`
-	Lead  map[string]string `json:"lead"` // C36: leader view per node
+	Lead  map[string]string `json:"lead"` // C36: leader view per node ("-" = no coordinator flagged)
+	Solo  []string          `json:"solo"` // C36: nodes whose view is exactly [self]
+	Rec0  string            `json:"rec0"` // C36: "D" = the registry starts with the departed node's record
 }
 
 func sortedKeys(m map[string]string) []string {
